@@ -24,9 +24,10 @@ def num(w, k, d):
         return d
 
 
-def violates(stager, n_w, n_m, twu):
+def violates(stager, n_w, n_m, twu, mix=(True, False)):
+    objs = [A(f) for f in mix]
     fa, sa = A(True), A(False)
-    adapters = {"integration_transition": [fa, sa]}
+    adapters = {"integration_transition": objs}
     tfs = [lambda s: {}]
     try:
         st = stager.stages(n_w, n_m, adapters, tfs, trace_warm_up=twu)
@@ -54,7 +55,7 @@ def violates(stager, n_w, n_m, twu):
         if (s.trace_funcs is not None) != twu or s.record_stats != twu:
             return f"stage {k} traces/stats do not follow trace_warm_up"
         if isinstance(stager, WindowedWarmUpStager):
-            want = [fa] if "fast" in k else [fa, sa]
+            want = [a for a in objs if a.is_fast] if "fast" in k else objs
             if list(s.adapters["integration_transition"]) != want:
                 return f"stage {k} has adapters fast={[a.is_fast for a in s.adapters['integration_transition']]}"
     if isinstance(stager, WindowedWarmUpStager) and n_w > 0:
@@ -82,10 +83,11 @@ def main():
         stager = WindowedWarmUpStager(**cfg) if which == "windowed" else WarmUpStager()
         for (a, b) in tries:
             for twu in (False, True):
-                r = violates(stager, a, b, twu)
-                if r:
-                    print(f"REPRODUCED: {type(stager).__name__}({cfg}).stages({a}, {b}, trace_warm_up={twu}): {r}")
-                    sys.exit(1)
+                for mix in ((True, False), (False,), (True,), ()):
+                    r = violates(stager, a, b, twu, mix)
+                    if r:
+                        print(f"REPRODUCED: {type(stager).__name__}({cfg}).stages({a}, {b}, trace_warm_up={twu}), adapters is_fast={list(mix)}: {r}")
+                        sys.exit(1)
     print("not reproduced on the counter-model or the neighbourhood sweep")
     sys.exit(0)
 
